@@ -318,9 +318,15 @@ func (p *Parser) parseStatement() ast.Node {
 	case token.VAR:
 		stmt = p.parseVar()
 	case token.CONST:
-		stmt = p.parseConst()
+		// Avoid wrapping a nil *ast.Const in a non-nil ast.Node
+		if c := p.parseConst(); c != nil {
+			stmt = c
+		}
 	case token.RETURN:
-		stmt = p.parseReturn()
+		// Avoid wrapping a nil *ast.Return in a non-nil ast.Node
+		if r := p.parseReturn(); r != nil {
+			stmt = r
+		}
 	case token.BREAK:
 		stmt = p.parseBreak()
 	case token.CONTINUE:
